@@ -150,6 +150,9 @@ theorem step_refines {ms : CQ.State × Handles} {ss : FES.State × Handles} (h :
       refine ⟨by simp only [hid']; exact hlt', ?_⟩
       intro x hx hxid
       exact hwf' x ((mem_pending_iff hr x).mpr (hsub x ((mem_pending_iff hr' x).mp hx))) hxid
+  | peek =>
+    simp only [mstep, sstep, CQ.nextTime_refines hr]
+    exact ⟨by first | rfl | trivial, h⟩
 
 theorem runWith_refines (ops : List Op) : ∀ {ms : CQ.State × Handles} {ss : FES.State × Handles},
     RR ms ss → (runWith mstep ms ops).2 = (runWith sstep ss ops).2 ∧
